@@ -42,6 +42,7 @@ type Plan struct {
 	ResultPath string    `json:"result"`
 	MaxOps     int       `json:"max_ops"`
 	Chunks     []int     `json:"chunks"`
+	Chroot     bool      `json:"chroot"`
 }
 
 type Result struct {
@@ -97,6 +98,11 @@ type Runner struct {
 func (r *Runner) Run(work string, iv *Inv, p *Plan) (*ChildOut, error) {
 	p.Dir = filepath.Join(work, "root")
 	p.Args = iv.ArgsFor(p.Dir)
+	if iv.Chroot {
+		// the child makes the scenario root its file-system root: "@ROOT@/src" is "/src"
+		p.Chroot = true
+		p.Args = iv.ArgsFor("")
+	}
 	p.Stdout = filepath.Join(work, "stdout")
 	p.Stderr = filepath.Join(work, "stderr")
 	p.TracePath = filepath.Join(work, "trace")
